@@ -205,6 +205,11 @@ def gen_doc(r: Any, idx: int) -> G.J:
     layers = [gen_layer(r, odd[0] if r.random() < 0.2 else f"L{idx}a")]
     if r.random() < 0.25:
         layers.append(gen_layer(r, odd[1] if r.random() < 0.3 else f"L{idx}b"))
+    if r.random() < 0.3:
+        # a library layer: the only layer kind without communication parameters
+        lib = gen_layer(r, f"L{idx}lib")
+        lib.update({"kind": "ECU-SHARED-DATA", "xml_tail": "", "ncp": 0})
+        layers.insert(r.randrange(0, len(layers) + 1), lib)
     return {"name": f"doc{idx}", "layers": layers}
 
 
@@ -387,6 +392,12 @@ def enumerate_edits(root: ET.Element, dop_type_edits: bool) -> List[G.J]:
             nn = sn(s) + "_rn"
             if nn not in names:
                 edits.append({"op": "rename", "layer": lname, "service": sn(s), "new_name": nn})
+                # ... and the same rename while a service listed in front of it goes away (the
+                # renamed service then sits at different positions in the two layers)
+                k = svcs.index(s)
+                if k > 0:
+                    edits.append({"op": "rename", "layer": lname, "service": sn(s), "new_name": nn,
+                                  "also_delete": sn(svcs[k - 1])})
         refd: Set[str] = set()
         for s in svcs:
             refd |= svc_refs(s)
@@ -524,6 +535,10 @@ def apply_edit(root: ET.Element, e: G.J) -> None:
                     el = s.find("SHORT-NAME")
                     assert el is not None
                     el.text = e["new_name"]
+                    if e.get("also_delete"):
+                        for s2 in list(dcs):
+                            if s2.tag == "DIAG-SERVICE" and sn(s2) == e["also_delete"]:
+                                dcs.remove(s2)
                 return
         raise KeyError(e["service"])
     if op == "dop-type":
@@ -660,6 +675,8 @@ def effect_independent(e: G.J, lname: str, root_e: ET.Element, root_o: ET.Elemen
         eff["removed"] = [e["service"]]
     elif e["op"] == "rename":
         eff["renamed"] = [[e["new_name"], e["service"]]]
+        if e.get("also_delete"):
+            eff["removed"] = [e["also_delete"]]
     elif e["op"] == "param":
         L = find_layer(root_o, lname)
         eff["changed"] = sorted(sn(s) for s in services_of(L) if e["msg_id"] in svc_refs(s))
@@ -700,6 +717,10 @@ def effect_trusted(e: G.J, layer_e: Any, layer_o: Any) -> Optional[G.J]:
         e_has_new, o_has_new = e["new_name"] in en, e["new_name"] in on
         if o_has and not e_has_old and e_has_new and not o_has_new:
             eff["renamed"] = [[e["new_name"], e["service"]]]
+            if e.get("also_delete") and e["also_delete"] in on and e["also_delete"] not in en:
+                eff["removed"] = [e["also_delete"]]
+            elif e.get("also_delete"):
+                return None
         elif not o_has and not e_has_new:
             pass
         else:
@@ -748,6 +769,8 @@ def edit_feature(e: Optional[G.J]) -> str:
         return f
     if e["op"] == "dop-type":
         return "dop-data-type"
+    if e.get("also_delete"):
+        return "service+another-deleted-in-front"
     return "service"
 
 
@@ -796,9 +819,13 @@ def judge_layer_pair(col: common.Collector, new: Any, old: Any, kind: str,
             col.violation((none_clause, cat), det)
             continue
         if cat != PRIMARY[kind]:
-            if got_names:
-                det["problem"] = f"{cat} lists {got_names}; the only difference is a {kind}"
-                col.violation((f"{kind}-also-reported-as-{SHORT[cat]}", feat), det)
+            # (a compound edit - a rename while another service goes away - has expectations
+            # in two categories: the secondary one is compared by name)
+            if sorted(got_names) != sorted(want_names):
+                det["problem"] = (f"{cat} lists {got_names}" + (f", expected {want_names}" if want_names
+                                                               else f"; the only difference is a {kind}"))
+                col.violation((f"{kind}-also-reported-as-{SHORT[cat]}" if not want_names else
+                               f"{kind}-with-wrong-{SHORT[cat]}", feat), det)
             continue
         if got_names != want_names:
             if not got_names:
